@@ -208,3 +208,23 @@ impl State {
         }
     }
 }
+
+#[cfg(feature = "verif-hooks")]
+impl State {
+    pub(super) fn verif_dump(&self) -> String {
+        let m = match self.last_ref_modification {
+            Some(RefModify::RefInc) => "inc",
+            Some(RefModify::RefDec) => "dec",
+            None => "-",
+        };
+        format!(
+            "Arc cnt={} sync={} inc={} dec={} insp={} mod={}",
+            self.ref_cnt,
+            self.synchronize.verif_dump(),
+            Access::verif_dump(&self.last_ref_inc),
+            Access::verif_dump(&self.last_ref_dec),
+            Access::verif_dump(&self.last_ref_inspect),
+            m
+        )
+    }
+}
